@@ -349,7 +349,7 @@ func c19CLI(c *Ctx, name string, lines []string, fsets []Flags) {
 func init() {
 	register(&PropDef{
 		ID: "C19", Level: "exploration",
-		Rule:        "every line of G at <=1 non-default production (thorough <=2; all 6 gates and 6 containers at 0 deviations) and every tree of T (vocabulary path x 53 value kinds x 5 shapes x 10 placements) is redacted twice in-process under the product of N,B,I with a replacement alphabet (default, quotes/backslash/non-ASCII, 'x', empty; thorough also date-, oid-, number-, boolean-, null- and '$'-looking texts; never e-mail-shaped); oracle = pass 2 output == pass 1 output as bytes; plus the real CLI run twice (output file of pass 1 = input file of pass 2) over corpus files of the 0-deviation lines and of 4000 T trees per worker, for every flag set. distinct = distinct input lines",
+		Rule:        "every line of G at <=1 non-default production (thorough <=2; all 6 gates and 6 containers at 0 deviations) and every tree of T (vocabulary path x 53 value kinds x 5 shapes x 10 placements) is redacted twice in-process under the product of N,B,I with a replacement alphabet (default, quotes/backslash/non-ASCII, 'x', empty; thorough also date-, oid-, number-, boolean-, null- and '$'-looking texts; never e-mail-shaped); oracle = pass 2 output == pass 1 output as bytes; plus the real CLI run twice (output file of pass 1 = input file of pass 2) over corpus files of the 0-deviation lines and of 4000 T trees per worker, for every flag set. distinct = distinct input lines" + scaleRule + streamLenRule + "; collision groups of C05 as files through the CLI (pass 2 over the output file of pass 1, separate processes)",
 		Assumptions: []string{"--redactNamespaces, --redactFieldNames, --encrypt and selective mode are outside the property", "lines the first pass rejects or panics on are skipped (C07's concern)"},
 		Run:         c19Run,
 	})
